@@ -15,7 +15,7 @@ RULE = ("dedicated malformed streams: (a) arbitrary byte strings (random bytes, 
         "malformed expansion pieces (tokens pending behind a parse error); (c) names made of separators only / with empty segments and (name, idx) pairs with idx in {-2^63, -5, "
         "-1, 0, len-1, len, MaxIdx, MaxIdx+1, 2^40} for every getter/setter/Has/Remove/Child; (d) Unpack targets of unsupported kinds "
         "(chan, func, complex, map[int]T, *interface{}, **T, non-pointers) next to supported ones, and 11 hand-written types with blank, "
-        "unexported and caseless-named fields, embedded unexported structs, interface fields with methods; (e) SetChild between relatives over several configs (the receiver, its parents, a config the name leads through below the receiver, a config holding the receiver through a second attachment, a former parent with a stale link), every config dumped after every step. Observable: returned / error / PANIC "
+        "unexported and caseless-named fields, embedded unexported structs, interface fields with methods; (e) SetChild between relatives over several configs (the receiver, its parents, a config the name leads through below the receiver, a config holding the receiver through a second attachment, a former parent with a stale link), every config dumped after every step; (f) pre-filled interface{} fields, map entries and list elements holding structs by value and by pointer (kind ifaceheld). Observable: returned / error / PANIC "
         "/ FATAL (process death, incl. stack overflow under a 64 MiB limit and memory under a 1 GiB GOMEMLIMIT) / timeout / leaked "
         "goroutines. Oracle: every call returns. Modelled kinds are also compared with the Lean model. Non-trivial: the input contains "
         "a structural character or is not valid in its format. Distinct by (entry point, input class, outcome).")
@@ -25,7 +25,7 @@ ASSUMPTIONS = ["MaxIdx itself is a trusted configuration value (a caller asking 
 
 
 def normalize_result(case, res):
-    if case.get("k") in ("load", "oddtarget"):
+    if case.get("k") in ("load", "oddtarget", "ifaceheld"):
         if isinstance(res, dict) and ("panic" in res or "fatal" in res or "leakedGoroutines" in res):
             return res
         return {"unmodelled": True}
@@ -315,6 +315,9 @@ def fix_candidate(cand, base):
             if o["op"] == "new": live.add(o["r"])
             if o["op"] == "child": live.add(o["to"])
         return cand
+    if cand.get("k") == "ifaceheld":
+        from . import c04
+        return c04.fix_candidate(cand, base)
     return TG.fix_typed_candidate(cand, base)
 
 
@@ -367,6 +370,9 @@ def gen(rng, tier):
     yield from _gen_streams(rng, tier)
     yield from odd_cases(rng.fork("odd"), tier)
     yield from cycle_cases(rng.fork("cycles"), tier)
+    # (f) pre-filled interface{} fields, map entries and list elements holding structs by value and by pointer
+    from . import c04
+    yield from c04.ifaceheld_cases(rng.fork("ifaceheld"), tier)
 
 
 def nontrivial(case, impl):
